@@ -172,14 +172,7 @@ func runC07(c *Ctx) {
 			inOnce := onceClosures[fn]
 			// closeErr stored before
 			errField := strings.TrimSuffix(k, "closeNotify") + "closeErr"
-			stored := false
-			eachInstr(fn, func(x ssa.Instruction) {
-				if st, ok := x.(*ssa.Store); ok && instrDominates(x, in) {
-					if k2, _ := fieldKey(st.Addr); k2 == errField {
-						stored = true
-					}
-				}
-			})
+			stored := closeErrStoredFor(p, fn, in, errField)
 			c.check(inOnce && stored, key, instrPos(in), "inside Once.Do, after closeErr was stored",
 				fmt.Sprintf("close(closeNotify) must run inside sync.Once.Do (%v) after closeErr is stored (%v): a second close panics, or waiters read a nil error", inOnce, stored))
 		})
@@ -1054,6 +1047,12 @@ func runC07(c *Ctx) {
 		c.check(good, "idle-deadline@reusableConn.readLoop", rl.Pos(), "idle deadline re-armed after each reply, before the connection becomes idle", why)
 	}
 
+	checkWaitingDeadlineUnconditional(c)
+
+	// ---------------------------------------------------------------- R14
+	c.rule("R14", "Close releases what the upstream was built on: the UDP sockets (and QUIC transports) of doq / h3 upstreams are closed with the upstream", 1)
+	checkQuicSocketsClosed(c)
+
 	// ---------------------------------------------------------------- R8
 	c.rule("R8", "a freshly dialled connection is stored, returned or closed on every path", 2)
 	for _, f := range p.funcsIn(relTransport) {
@@ -1487,4 +1486,52 @@ func sameKeyValue(a, b ssa.Value) bool {
 		return sameKeyValue(ca.X, cb.X)
 	}
 	return false
+}
+
+
+// closeErrStoredFor: the close error is visible to whoever is woken. Waiters that wake on the close notification need
+// the error stored BEFORE close(closeNotify). Since D30 the waiters of TraditionalDnsConn / reusableConn wake on the
+// reader's exit instead (readLoopDone, checked by wait-until-reader-done): the reader returns only after its own
+// CloseWithErr call, i.e. after the Once body has completed — so for a type that has such a field it is enough that the
+// error is stored unconditionally somewhere in the function that closes the notification.
+func closeErrStoredFor(p *Prog, fn *ssa.Function, closeInstr ssa.Instruction, errField string) bool {
+	before, anywhere := false, false
+	eachInstr(fn, func(x ssa.Instruction) {
+		st, ok := x.(*ssa.Store)
+		if !ok {
+			return
+		}
+		if k2, _ := fieldKey(st.Addr); k2 != errField {
+			return
+		}
+		if instrDominates(x, closeInstr) {
+			before = true
+		}
+		if len(guardsOfInstr(x)) == 0 {
+			anywhere = true
+		}
+	})
+	if before {
+		return true
+	}
+	readerDone := strings.TrimSuffix(errField, "closeErr") + "readLoopDone"
+	hasReaderDone := false
+	for k := range p.whoWrites().byField {
+		if k == readerDone {
+			hasReaderDone = true
+		}
+	}
+	if !hasReaderDone {
+		// the field may be written by a composite literal only: look for a close() of it
+		for _, f := range p.Funcs {
+			eachInstr(f, func(x ssa.Instruction) {
+				if d, ok := x.(*ssa.Defer); ok && callNameCommon(&d.Call) == "builtin:close" && len(d.Call.Args) == 1 {
+					if k, ok := loadedField(d.Call.Args[0]); ok && k == readerDone {
+						hasReaderDone = true
+					}
+				}
+			})
+		}
+	}
+	return anywhere && hasReaderDone
 }
